@@ -17,6 +17,10 @@
 //	          PutMany, and api.DatabaseAPI.Handle get/query/sub/qsub/create/update/insert/delete
 //	records   record.Wrapper and a struct record; key directly in the cell's directory or one
 //	          level deeper
+//	spelling  the reader spells the key of the marked record canonically or as an alias
+//	          (dir//t, dir/./t, ./dir/t, dir/x/../t, dir/t/, /dir/t): all six on fstree, which
+//	          resolves them to the record's file, one control column on the other backends;
+//	          for every access path that takes a key or key prefix from the reader
 //	histories one access, and every non-feed access followed by every access of the same
 //	          reader (same interface / same API connection)
 //	thorough  also: badger, the reader's Always* options, two-access histories for all
@@ -49,6 +53,7 @@ import (
 	"errors"
 	"fmt"
 	"os"
+	"path"
 	"runtime"
 	"runtime/pprof"
 	"sort"
@@ -94,6 +99,11 @@ type Cell struct {
 	Cache    string `json:"cache"` // none | cold | warm-get | warm-put
 	// ReaderOpts: further options of the reader's interface: "" | always-secret | always-crown | always-expiry
 	ReaderOpts string `json:"reader_opts,omitempty"`
+	// Alias: the reader spells the key of the marked record differently: "" (canonical) |
+	// dslash (dir//t) | dot (dir/./t) | lead-dot (./dir/t) | dotdot (dir/x/../t) | trail (dir/t/) |
+	// lead-slash (/dir/t). fstree resolves all of them to the record's file; on the other
+	// backends such a spelling is simply a different key.
+	Alias string `json:"key_spelling,omitempty"`
 	// Pre: an access of the same reader that precedes the access under test (after the marking)
 	Pre  string `json:"first_access,omitempty"`
 	Path string `json:"path"`
@@ -107,6 +117,9 @@ func (c Cell) String() string {
 	ro := ""
 	if c.ReaderOpts != "" {
 		ro = "+" + c.ReaderOpts
+	}
+	if c.Alias != "" {
+		p += "@" + c.Alias
 	}
 	return fmt.Sprintf("%s/shadow=%v/%s/d%d/%s/%s/L=%v,I=%v%s/%s/%s", c.Backend, c.Shadow, c.Rec, c.Depth, c.Flags, c.Marking, c.Local, c.Internal, ro, c.Cache, p)
 }
@@ -519,6 +532,35 @@ func apiObs(m apiMsg, via string) obs {
 	return o
 }
 
+// ---------- alias spellings of a key ----------
+
+var aliasKinds = []string{"dslash", "dot", "lead-dot", "dotdot", "trail", "lead-slash"}
+
+// spell returns the key dir+"t" (dir ends in "/") and the directory prefix in the given spelling.
+func spell(alias, dir string) (key, prefix string) {
+	switch alias {
+	case "dslash":
+		return dir + "/t", dir + "/"
+	case "dot":
+		return dir + "./t", dir + "./"
+	case "lead-dot":
+		return "./" + dir + "t", "./" + dir
+	case "dotdot":
+		return dir + "x/../t", dir + "x/../"
+	case "trail":
+		return dir + "t/", dir
+	case "lead-slash":
+		return "/" + dir + "t", "/" + dir
+	default:
+		return dir + "t", dir
+	}
+}
+
+// canonKey is the key a path-resolving backend (fstree) reduces a spelling to.
+func canonKey(dbKey string) string {
+	return strings.TrimPrefix(path.Clean("/"+dbKey), "/")
+}
+
 // ---------- one cell ----------
 
 type result struct {
@@ -557,6 +599,20 @@ func runCell(cell Cell, idx int64) (res result) {
 	}
 	tKey, nKey := dir+"t", dir+"n"
 	fullT, fullN := b.db+":"+tKey, b.db+":"+nKey
+	// the reader's spelling of the marked record's key and of the directory prefix
+	accKey, accDir := spell(cell.Alias, dir)
+	accT := b.db + ":" + accKey
+	// isT: does a key handed to the reader denote the marked record
+	isT := func(fullKey string) bool {
+		if fullKey == fullT {
+			return true
+		}
+		if b.kind != "fstree" {
+			return false
+		}
+		dbn, dbk := record.ParseKey(fullKey)
+		return dbn == b.db && canonKey(dbk) == tKey
+	}
 
 	step := func(name string, err error) error {
 		res.calls++
@@ -585,10 +641,14 @@ func runCell(cell Cell, idx int64) (res result) {
 		if st, err := database.VerifStorage(b.db); err == nil {
 			_ = st.Delete(tKey)
 			_ = st.Delete(nKey)
+			if accKey != tKey {
+				_, _ = vlib.Catch(func() { _ = st.Delete(accKey) })
+			}
 		}
 		if b.prov != nil {
 			b.prov.remove(tKey)
 			b.prov.remove(nKey)
+			b.prov.remove(accKey)
 		}
 		if b.kind == "config" {
 			config.VerifUnregister(tKey)
@@ -619,6 +679,9 @@ func runCell(cell Cell, idx int64) (res result) {
 		reader = database.NewInterface(opts)
 	}
 
+	if cell.Alias != "" {
+		res.trace = append(res.trace, fmt.Sprintf("the reader spells the key %q as %q (prefix %q)", tKey, accKey, accDir))
+	}
 	// 1. privileged writes before the marking
 	if err := step("W.Put(n=v2)", W.Put(newRec(cell.Rec, fullN, "v2"))); err != nil {
 		return fail("Put sibling", err)
@@ -632,13 +695,13 @@ func runCell(cell Cell, idx int64) (res result) {
 	// 2. reader pre-access (fills the reader's cache while the record is not marked)
 	switch cell.Cache {
 	case "warm-get":
-		r, err := reader.Get(fullT)
+		r, err := reader.Get(accT)
 		_ = step("reader.Get(t) [pre]", err)
-		if err != nil || r == nil {
+		if (err != nil || r == nil) && cell.Alias == "" {
 			return fail("reader pre-Get", err)
 		}
 	case "warm-put":
-		if err := step("reader.Put(t=v1) [pre]", reader.Put(newRec(cell.Rec, fullT, "v1"))); err != nil {
+		if err := step("reader.Put(t=v1) [pre]", reader.Put(newRec(cell.Rec, accT, "v1"))); err != nil && cell.Alias == "" {
 			return fail("reader pre-Put", err)
 		}
 	}
@@ -793,10 +856,10 @@ func runCell(cell Cell, idx int64) (res result) {
 		n := 0
 		for r := range it.Next {
 			n++
-			switch r.Key() {
-			case fullT:
+			switch {
+			case isT(r.Key()):
 				seeT(observe(r, "query"))
-			case fullN:
+			case r.Key() == fullN:
 				res.witnessOK = true
 			}
 		}
@@ -835,10 +898,10 @@ func runCell(cell Cell, idx int64) (res result) {
 			if m.typ != "upd" && m.typ != "new" && m.typ != "del" && m.typ != "ok" {
 				continue
 			}
-			switch m.key {
-			case fullT:
+			switch {
+			case isT(m.key):
 				seeT(apiObs(m, "api"))
-			case fullN:
+			case m.key == fullN:
 				res.witnessOK = true
 			}
 		}
@@ -865,7 +928,7 @@ func runCell(cell Cell, idx int64) (res result) {
 		n0 := len(res.leaks) // what the reader saw in this access comes after n0
 		switch path {
 		case "Get":
-			r, err := reader.Get(fullT)
+			r, err := reader.Get(accT)
 			_ = step("reader.Get(t)", err)
 			if r != nil {
 				seeT(observe(r, "get"))
@@ -873,18 +936,18 @@ func runCell(cell Cell, idx int64) (res result) {
 			res.success = err == nil && r != nil
 			res.outcome = "get-" + errClass(err)
 		case "Exists":
-			ok, err := reader.Exists(fullT)
+			ok, err := reader.Exists(accT)
 			_ = step(fmt.Sprintf("reader.Exists(t)=%v", ok), err)
 			res.success = err == nil && ok
 			res.outcome = fmt.Sprintf("exists-%v-%s", ok, errClass(err))
 		case "Query-prefix":
-			drainQuery(q, "Query(dir)")
+			drainQuery(query.New(b.db+":"+accDir), "Query(dir)")
 			res.success = len(res.leaks) > n0
 		case "Query-key":
-			drainQuery(query.New(fullT), "Query(key of t)")
+			drainQuery(query.New(accT), "Query(key of t)")
 			res.success = len(res.leaks) > n0
 		case "Query-cond":
-			drainQuery(query.New(b.db+":"+dir).Where(query.Where("Value", query.SameAs, "v2")), "Query(dir where Value sameas v2)")
+			drainQuery(query.New(b.db+":"+accDir).Where(query.Where("Value", query.SameAs, "v2")), "Query(dir where Value sameas v2)")
 			res.success = len(res.leaks) > n0
 		case "Subscribe-writes":
 			res.checkMod = false
@@ -907,31 +970,31 @@ func runCell(cell Cell, idx int64) (res result) {
 			res.success = len(res.leaks) > n0 || res.fedWhileAllowed > 0
 			res.outcome = "feed-drained"
 		case "InsertValue":
-			err := step("reader.InsertValue(t,Value=vR)", reader.InsertValue(fullT, "Value", "vR"))
+			err := step("reader.InsertValue(t,Value=vR)", reader.InsertValue(accT, "Value", "vR"))
 			res.success, res.outcome = err == nil, "write-"+errClass(err)
 		case "SetAbsoluteExpiry":
-			err := step("reader.SetAbsoluteExpiry(t)", reader.SetAbsoluteExpiry(fullT, farFuture))
+			err := step("reader.SetAbsoluteExpiry(t)", reader.SetAbsoluteExpiry(accT, farFuture))
 			res.success, res.outcome = err == nil, "write-"+errClass(err)
 		case "SetRelativateExpiry":
-			err := step("reader.SetRelativateExpiry(t)", reader.SetRelativateExpiry(fullT, 3600))
+			err := step("reader.SetRelativateExpiry(t)", reader.SetRelativateExpiry(accT, 3600))
 			res.success, res.outcome = err == nil, "write-"+errClass(err)
 		case "MakeSecret":
-			err := step("reader.MakeSecret(t)", reader.MakeSecret(fullT))
+			err := step("reader.MakeSecret(t)", reader.MakeSecret(accT))
 			res.success, res.outcome = err == nil, "write-"+errClass(err)
 		case "MakeCrownJewel":
-			err := step("reader.MakeCrownJewel(t)", reader.MakeCrownJewel(fullT))
+			err := step("reader.MakeCrownJewel(t)", reader.MakeCrownJewel(accT))
 			res.success, res.outcome = err == nil, "write-"+errClass(err)
 		case "Put":
-			err := step("reader.Put(t=vR)", reader.Put(newRec(cell.Rec, fullT, "vR")))
+			err := step("reader.Put(t=vR)", reader.Put(newRec(cell.Rec, accT, "vR")))
 			res.success, res.outcome = err == nil, "write-"+errClass(err)
 		case "PutNew":
-			err := step("reader.PutNew(t=vR)", reader.PutNew(newRec(cell.Rec, fullT, "vR")))
+			err := step("reader.PutNew(t=vR)", reader.PutNew(newRec(cell.Rec, accT, "vR")))
 			res.success, res.outcome = err == nil, "write-"+errClass(err)
 		case "Delete":
-			err := step("reader.Delete(t)", reader.Delete(fullT))
+			err := step("reader.Delete(t)", reader.Delete(accT))
 			res.success, res.outcome = err == nil, "write-"+errClass(err)
 		case "Purge":
-			n, err := reader.Purge(context.Background(), q)
+			n, err := reader.Purge(context.Background(), query.New(b.db+":"+accDir))
 			_ = step(fmt.Sprintf("reader.Purge(dir)=%d", n), err)
 			res.success, res.outcome = err == nil, "purge-"+errClass(err)
 		case "PutMany":
@@ -940,7 +1003,7 @@ func runCell(cell Cell, idx int64) (res result) {
 			// or the finishing call (a select between two ready channels in PutMany), and the
 			// finishing call blocks for ever if the first one already took it: finish only
 			// after a successful first call and report the first error of the two.
-			err := put(newRec(cell.Rec, fullT, "vR"))
+			err := put(newRec(cell.Rec, accT, "vR"))
 			if err == nil {
 				err = put(nil)
 			}
@@ -950,7 +1013,7 @@ func runCell(cell Cell, idx int64) (res result) {
 			res.outcome = "putmany-" + errClass(err)
 		case "api:get":
 			res.calls++
-			conn.h.Handle([]byte("1|get|" + fullT))
+			conn.h.Handle([]byte("1|get|" + accT))
 			m, err := conn.await("1", nil, "ok", "error")
 			if err != nil {
 				res.engineErr = fmt.Sprintf("%s: %v", cell, err)
@@ -967,7 +1030,7 @@ func runCell(cell Cell, idx int64) (res result) {
 		case "api:query":
 			res.calls++
 			var msgs []apiMsg
-			conn.h.Handle([]byte("1|query|query " + b.db + ":" + dir))
+			conn.h.Handle([]byte("1|query|query " + b.db + ":" + accDir))
 			m, err := conn.await("1", &msgs, "done", "error")
 			if err != nil {
 				res.engineErr = fmt.Sprintf("%s: %v", cell, err)
@@ -1013,13 +1076,13 @@ func runCell(cell Cell, idx int64) (res result) {
 			res.outcome = "api-feed-done"
 			res.trace = append(res.trace, fmt.Sprintf("api 2|qsub|query dir ... 2|cancel -> %d replies, done", len(apiFeed)))
 		case "api:create":
-			apiWrite("1|create|" + fullT + `|J{"Value":"vR"}`)
+			apiWrite("1|create|" + accT + `|J{"Value":"vR"}`)
 		case "api:update":
-			apiWrite("1|update|" + fullT + `|J{"Value":"vR"}`)
+			apiWrite("1|update|" + accT + `|J{"Value":"vR"}`)
 		case "api:insert":
-			apiWrite("1|insert|" + fullT + `|{"Value":"vR"}`)
+			apiWrite("1|insert|" + accT + `|{"Value":"vR"}`)
 		case "api:delete":
-			apiWrite("1|delete|" + fullT)
+			apiWrite("1|delete|" + accT)
 		default:
 			res.engineErr = "unknown path " + path
 		}
@@ -1130,6 +1193,9 @@ func findViolations(r result) []vio {
 
 func judge(c *vlib.Ctx, r result) (violated bool) {
 	for _, v := range findViolations(r) {
+		if r.cell.Alias != "" {
+			v.site += "@alias-key"
+		}
 		w := witness{Cell: r.cell, Trace: r.trace}
 		if v.mod {
 			w.Before, w.After = r.before, r.after
@@ -1144,6 +1210,9 @@ func judge(c *vlib.Ctx, r result) (violated bool) {
 func violationSigs(r result) []string {
 	var out []string
 	for _, v := range findViolations(r) {
+		if r.cell.Alias != "" {
+			v.site += "@alias-key"
+		}
 		out = append(out, v.clause+"|"+v.site+"|"+v.disc)
 	}
 	return out
@@ -1177,6 +1246,7 @@ type group struct {
 	depth   int
 	cache   string
 	ropts   string
+	alias   string
 	pre     string
 	path    string
 }
@@ -1190,7 +1260,7 @@ func (g group) cells() []Cell {
 				continue // the API always acts as neither local nor internal
 			}
 			out = append(out, Cell{Backend: g.backend.kind, Shadow: g.backend.shadow, Rec: g.rec, Depth: g.depth,
-				Flags: fm.flags, Marking: fm.marking, Local: p[0], Internal: p[1], Cache: g.cache, ReaderOpts: g.ropts, Pre: g.pre, Path: g.path})
+				Flags: fm.flags, Marking: fm.marking, Local: p[0], Internal: p[1], Cache: g.cache, ReaderOpts: g.ropts, Alias: g.alias, Pre: g.pre, Path: g.path})
 		}
 	}
 	return out
@@ -1281,6 +1351,39 @@ func main() {
 			}
 		}
 		nSingle := len(groups)
+		// (a') one access under an alias spelling of the marked record's key (all access paths
+		// that take a key or a key prefix from the reader; feeds deliver canonical keys). fstree
+		// resolves every spelling to the record's file: all six there; on the other backends a
+		// spelling is another key: one control column.
+		aliasRecs, aliasDepths := []string{"wrapper"}, []int{1}
+		if thorough {
+			aliasRecs, aliasDepths = recs, depths
+		}
+		for _, rec := range aliasRecs {
+			for _, depth := range aliasDepths {
+				for _, path := range append(append([]string{}, ifacePaths...), apiPaths...) {
+					if pathFamily(path) == "feed" {
+						continue
+					}
+					isAPI := strings.HasPrefix(path, "api:")
+					for _, cache := range caches {
+						if isAPI && cache != "none" {
+							continue
+						}
+						for _, b := range bks {
+							for _, al := range aliasKinds {
+								if b.kind != "fstree" && al != aliasKinds[0] {
+									continue
+								}
+								groups = append(groups, group{backend: b, rec: rec, depth: depth, cache: cache, alias: al, path: path})
+							}
+						}
+					}
+				}
+			}
+		}
+		nAlias := len(groups) - nSingle
+		nSingle = len(groups)
 		// (b) two accesses of the same reader in a row: every non-feed access followed by every access
 		for _, rec := range seqRecs {
 			for _, depth := range seqDepths {
@@ -1472,6 +1575,6 @@ func main() {
 		}())
 		c.Extra("bounds", map[string]any{"flags_x_marking": len(flagMarkings), "reader_privileges": 4, "cache_settings": 4,
 			"interface_paths": len(ifacePaths), "api_paths": len(apiPaths), "record_types": recs, "key_depths": depths,
-			"reader_option_variants": readerOpts, "groups_single_access": nSingle, "groups_two_accesses": len(groups) - nSingle, "caches_for_two_accesses": seqCaches, "record_types_for_two_accesses": seqRecs, "key_depths_for_two_accesses": seqDepths, "history_depth": "<= 3 privileged writes, <= 1 reader pre-access, 1 access, <= 3 privileged writes while a feed is open"})
+			"reader_option_variants": readerOpts, "groups_single_access": nSingle, "groups_single_access_with_alias_key": nAlias, "alias_spellings": aliasKinds, "groups_two_accesses": len(groups) - nSingle, "caches_for_two_accesses": seqCaches, "record_types_for_two_accesses": seqRecs, "key_depths_for_two_accesses": seqDepths, "history_depth": "<= 3 privileged writes, <= 1 reader pre-access, 1 access, <= 3 privileged writes while a feed is open"})
 	})
 }
